@@ -382,7 +382,9 @@ ADDENDA2 = {
            "physical space, all D, N >= 1, any state; the Kolmogorov-forced vorticity stepper exactly with the shifts that leave the forcing "
            "invariant (N | m*s_1).",
     "C12": " Every order (Properties/C12_orders.lean): the laminar recurrences for ETDRK1-4 with arbitrary, exact and stored coefficients, and "
-           "the 3-D ETDRK2 case.",
+           "the 3-D ETDRK2 case. COMPOSED WRAPPERS (Properties/C12_composed.lean, regenerated _forced_stepper.py and "
+           "_repeated_stepper.py): the forced step of a sub-stepped stepper is n inner steps of u + (dt*n)*f, equals the sub-stepped stepper "
+           "for zero forcing, and the effective time step is the exact product dt*n.",
     "C14": " repeat with constant / sequenced aux is the fold (a sequence of the wrong length is refused), RepeatedStepper.dt = n*dt "
            "(Properties/C14_aux.lean, on the regenerated loops).",
 }
